@@ -529,6 +529,26 @@ def _sym_cases(ctx, sp):
                     (lambda cops=cops, ax=ax: pt.concatenate([mk(f"x{k}", tuple(o)) for k, o in enumerate(cops)],
                                                              axis=ax).shape),
                     "(symshape concat (" + " ".join(_sshape(o) for o in cops) + f") {ax})"))
+    # ---- stack / concatenate / broadcast_to on operands of DIFFERENT RANK: every ordered pair of a chain of shapes
+    #      that are prefixes / suffixes / extensions of each other (incl. rank 0 vs rank 1 of length 1)
+    chain_c = [[], [(0, 1, 0, 0)], [(0, 1, 0, 0), (0, 0, 1, 0)], [(0, 1, 0, 0), (0, 0, 1, 0), (3, 0, 0, 0)],
+               [(1, 0, 0, 0)], [(0, 1, 0, 0), (1, 0, 0, 0)], [(3, 0, 0, 0)], [(0, 0, 1, 0)],
+               [(0, 0, 1, 0), (3, 0, 0, 0)], [(0, 1, 0, 0), (0, 0, 1, 0), (3, 0, 0, 0), (2, 0, 0, 0)]]
+    for ci, sc in enumerate(chain_c):
+        for cj, tc in enumerate(chain_c):
+            s1 = [dim(c, (ci + cj) % 4) for c in sc]
+            s2 = [dim(c, (ci + 2 * cj + 1) % 4) for c in tc]
+            for ax in (0, 1, 2):
+                for ops in ([s1, s2], [s1, s1, s2]):
+                    if ops[1] is s1 and ax:
+                        continue
+                    out.append(("stack", ops, ax,
+                                (lambda ops=ops, ax=ax: pt.stack([mk(f"x{k}", tuple(o)) for k, o in enumerate(ops)],
+                                                                 axis=ax).shape),
+                                "(symshape stack (" + " ".join(_sshape(o) for o in ops) + f") {ax})"))
+            out.append(("bcastto", [s1, s2], None,
+                        (lambda s1=s1, s2=s2: pt.broadcast_to(mk("x", tuple(s1)), tuple(s2)).shape),
+                        f"(symshape bcastto {_sshape(s1)} {_sshape(s2)})"))
     # ---- reductions: every axis subset of shapes mixing literal and symbolic axes
     for rank in range(0, 4):
         for _ in range(3):
@@ -567,6 +587,16 @@ def _sym_cases(ctx, sp):
             out.append(("pad", [shp], pw,
                         (lambda shp=shp, pw=pw: pt.pad(mk("x", tuple(shp)), pw).shape),
                         f"(symshape pad {_sshape(shp)} (" + " ".join(f"({b} {a})" for b, a in pw) + "))"))
+    # ---- expand_dims: EVERY axis pair (and single axis) of the admissible range and one beyond, mixed signs,
+    #      duplicates after normalisation, for ranks 0..2
+    for rank in range(0, 3):
+        shp = some_shape(rank, nonneg)
+        for k in (1, 2):
+            rr = range(-(rank + k) - 1, rank + k + 1)
+            for axes in itertools.product(rr, repeat=k):
+                out.append(("expand", [shp], axes,
+                            (lambda shp=shp, axes=axes: pt.expand_dims(mk("x", tuple(shp)), axes).shape),
+                            f"(symshape expand {_sshape(shp)} {ser.ints(axes)})"))
     # ---- einsum: axis-length table incl. length-1 broadcasting and conflicting lengths
     specs = ["ij,jk->ik", "ij,ij->ij", "ii->i", "ij,j->i", "ij,kj->ijk", "i,i->", "ij,jk,kl->il", "ij->ji", "i,j->ij",
              "iij->j", "ij,ij,ij->i"]
@@ -639,6 +669,65 @@ def _dimfun(d):
     _DIMFUN[id(d)] = f
     _DIMKEEP.append(d)
     return f
+
+
+def batch_shape_equality_rank(ctx):
+    """`are_shapes_equal` itself and its consumers with operands of DIFFERENT RANK: every ordered pair of a chain
+    of shapes that are prefixes / suffixes / extensions of each other ((), (n,), (n,m), (n,m,3), (1,), (n,1), ...;
+    rank 0 vs rank 1 of length 1) in varying spellings: equal iff same rank and equal lengths for all valuations;
+    a traced function refuses an argument of another rank"""
+    import pytato as pt
+    from pytato.utils import are_shapes_equal
+    sp = {p: pt.make_size_param(p) for p in PARAMS}
+    chain_c = [[], [(0, 1, 0, 0)], [(0, 1, 0, 0), (0, 0, 1, 0)], [(0, 1, 0, 0), (0, 0, 1, 0), (3, 0, 0, 0)],
+               [(1, 0, 0, 0)], [(0, 1, 0, 0), (1, 0, 0, 0)], [(3, 0, 0, 0)], [(0, 0, 1, 0)],
+               [(0, 1, 0, 0), (0, 0, 1, 0), (3, 0, 0, 0), (2, 0, 0, 0)], [(1, 0, 0, 0), (0, 1, 0, 0)]]
+    cases = dis = 0
+    queries, recs = [], []
+    for ci, sc in enumerate(chain_c):
+        for cj, tc in enumerate(chain_c):
+            for fa, fb in ((0, 0), (1, 4), (5, 2)):
+                s1 = tuple(build_dim(c, fa, sp) for c in sc)
+                s2 = tuple(build_dim(c, fb, sp) for c in tc)
+                truth = sc == tc
+                got = bool(are_shapes_equal(s1, s2))
+                cases += 1
+                recs.append((sc, tc, (fa, fb), got))
+                queries.append(f"(symshape stack ({_sshape(s1)} {_sshape(s2)}) 0)")
+                if got != truth:
+                    dis += 1
+                    ctx.violation("shape-equality:rank" if len(sc) != len(tc) else "shape-equality:lengths",
+                                  f"are_shapes_equal on shapes with coefficient rows {sc} / {tc} (spellings {fa},{fb}) "
+                                  f"answers {got}; they are {'equal' if truth else 'not equal (ranks ' + str(len(sc)) + ' / ' + str(len(tc)) + ')'}",
+                                  {"shape1": [_dstr(d) for d in s1], "shape2": [_dstr(d) for d in s2], "answer": got})
+            # the argument check of a traced function
+            if (ci + cj) % 2 == 0:
+                s1 = tuple(build_dim(c, 0, sp) for c in sc)
+                s2 = tuple(build_dim(c, 1, sp) for c in tc)
+                cases += 1
+                try:
+                    r = pt.trace_call(lambda u: 2 * u, pt.make_placeholder("x", s1, np.float64))
+                    fdef = r._container.function
+                    (pname,) = fdef.parameters
+                    res = fdef(**{pname: pt.make_placeholder("y", s2, np.float64)})
+                    _ = [v.shape for v in (res.values() if hasattr(res, "values") else [res])]
+                    acc = True
+                except (ValueError, TypeError) as e:
+                    acc = False
+                if acc != (sc == tc):
+                    dis += 1
+                    ctx.violation("shape-decision-in-consumer:call:rank",
+                                  f"a function traced for an argument of shape row {sc} {'accepts' if acc else 'rejects'} "
+                                  f"an argument of shape row {tc}", {"traced": [_dstr(d) for d in s1],
+                                                                     "argument": [_dstr(d) for d in s2]})
+    ans = common.driver_query_parallel(queries)
+    for (sc, tc, forms, got), a in zip(recs, ans):
+        if a.startswith("ok (") != got:
+            dis += 1
+            ctx.broken.append(f"correspondence:shapesEq-model-vs-real:{sc}:{tc}:{forms}")
+    ctx.note_batch("shape-equality-different-rank", cases, dis, exhaustive=True,
+                   note="all ordered pairs of a 10-shape chain x 3 spelling pairs: are_shapes_equal vs truth vs the "
+                        "model's shapesEq (Sym.stack), and the call-argument check")
 
 
 def _concrete(dims, sizes):
@@ -1018,6 +1107,7 @@ def run(ctx: common.Ctx):
     batch_affine(ctx)
     batch_consumers(ctx)
     batch_symshape(ctx)
+    batch_shape_equality_rank(ctx)
     try:
         progs = batch_symbolic(ctx)
         batch_kernels(ctx, progs)
